@@ -187,3 +187,162 @@ Proof.
     split; [|rewrite map_length; reflexivity].
     revert E. vm_compute. intro E. injection E as <-. reflexivity.
 Qed.
+
+(* ==================================================================================================================
+   SOURCE-DERIVED MODEL (DESIGN.md 0.5).  Gen/ExtrapolationGen.v is regenerated from sparseSpACE/Extrapolation.py by
+   harness/translate/py2gallina.py --target extrapolation at every ./setup.sh C11 and ./check C11; the theorems below are
+   therefore re-checked against what the code says NOW.  Trusted reading: Python floats are exact rationals (Base/PyNum.v).
+   Objects: EC c a b = the ExtrapolationCoefficients object of concrete class c (tag) with attributes a, b; levels and
+   exponents are natural numbers in the hand-written model, hence the arguments Z.of_nat _. *)
+From SG Require Import Base.PyLib Base.PyNum Gen.ExtrapolationGen Proofs.GenExtrapolationEq.
+Open Scope Qc_scope.
+
+(* get_step_width, get_romberg_coefficient (all four parameters), get_coefficient of the three classes through the
+   generated dynamic dispatch: equal to the hand-written model for ALL arguments; precondition a <> b (for a = b the Python
+   divides 0 by 0) and exponent >= 1 (exponent 0: 1 - 1 = 0 in the denominator) *)
+Theorem C11_gen_get_step_width : forall c a b k,
+  ExtrapolationCoefficients_get_step_width (mk_ExtrapolationCoefficients_t c a b) (Z.of_nat k) = Some (step_width a b k).
+Proof. exact gen_get_step_width. Qed.
+Theorem C11_gen_get_romberg_coefficient : forall c a b m j e lo, a <> b -> (1 <= e)%nat ->
+  ExtrapolationCoefficients_get_romberg_coefficient (mk_ExtrapolationCoefficients_t c a b)
+    (Z.of_nat m) (Z.of_nat j) (Z.of_nat e) (Z.of_nat lo) = Some (romberg_coefficient_from lo a b e m j).
+Proof. exact gen_get_romberg_coefficient. Qed.
+Theorem C11_gen_get_coefficient : forall c a b m j, a <> b ->
+  ExtrapolationCoefficients_dyn_get_coefficient (mk_ExtrapolationCoefficients_t c a b) (Z.of_nat m) (Z.of_nat j)
+  = Some (romberg_coefficient_from (cls_lo c) a b (cls_e c) m j).
+Proof. exact gen_get_coefficient. Qed.
+Print Assumptions C11_gen_get_romberg_coefficient.
+Print Assumptions C11_gen_get_coefficient.
+
+(* the factories: ExtrapolationCoefficientsFactory(version).get and RombergWeightFactory.get never raise and build the
+   object of the class that belongs to the version *)
+Theorem C11_gen_coefficients_factory_get : forall v a b s,
+  ExtrapolationCoefficientsFactory_get (mk_ExtrapolationCoefficientsFactory_t v) a b s
+  = Some (mk_ExtrapolationCoefficients_t (ver_cls v) a b).
+Proof. exact gen_coefficients_factory_get. Qed.
+Theorem C11_gen_weight_factory_get : forall a b v,
+  RombergWeightFactory_get a b v
+  = Some (mk_RombergWeights_t (ver_wcls v) a b v (mk_ExtrapolationCoefficients_t (ver_cls v) a b)).
+Proof. exact gen_weight_factory_get. Qed.
+
+(* the weights of the objects the factory hands out = the weight functions of the hand-written model (which the container
+   theorems above are about): ROMBERG_DEFAULT / ROMBERG_LINEAR -> trapezoidal weights, ROMBERG_SIMPSON -> Simpson weights
+   with the first level simpson_min_level *)
+Theorem C11_gen_trap_boundary_weight : forall a b v m f, a <> b -> v <> ExtrapolationVersion_ROMBERG_SIMPSON ->
+  RombergWeightFactory_get a b v = Some f ->
+  RombergTrapezoidalWeights_get_boundary_point_weight f (Z.of_nat m) = Some (trap_boundary_weight a b (ver_e v) m).
+Proof. exact gen_factory_trap_boundary. Qed.
+Theorem C11_gen_trap_inner_weight : forall a b v l m f, a <> b -> v <> ExtrapolationVersion_ROMBERG_SIMPSON ->
+  RombergWeightFactory_get a b v = Some f ->
+  RombergTrapezoidalWeights_get_inner_point_weight f (Z.of_nat l) (Z.of_nat m) = trap_inner_weight a b (ver_e v) l m.
+Proof. exact gen_factory_trap_inner. Qed.
+Theorem C11_gen_simpson_boundary_weight : forall a b m f, a <> b ->
+  RombergWeightFactory_get a b ExtrapolationVersion_ROMBERG_SIMPSON = Some f ->
+  RombergSimpsonWeights_get_boundary_point_weight f (Z.of_nat m) = Some (simpson_boundary_weight a b m).
+Proof. exact gen_factory_simpson_boundary. Qed.
+Theorem C11_gen_simpson_inner_weight : forall a b l m f, a <> b ->
+  RombergWeightFactory_get a b ExtrapolationVersion_ROMBERG_SIMPSON = Some f ->
+  RombergSimpsonWeights_get_inner_point_weight f (Z.of_nat l) (Z.of_nat m) = simpson_inner_weight a b l m.
+Proof. exact gen_factory_simpson_inner. Qed.
+Print Assumptions C11_gen_trap_boundary_weight.
+Print Assumptions C11_gen_trap_inner_weight.
+Print Assumptions C11_gen_simpson_boundary_weight.
+Print Assumptions C11_gen_simpson_inner_weight.
+
+(* slice algebra: RombergGridSlice.get_weight_for_left_and_right_support_point (self.left_point / right_point / width are
+   parameters of the generated function) IS romberg_slice_pair, asserts included *)
+Theorem C11_gen_slice_pair : forall s L R,
+  RombergGridSlice_get_weight_for_left_and_right_support_point (sl_l s) (sl_r s) (sl_width s) L R = romberg_slice_pair s L R.
+Proof. exact gen_slice_pair. Qed.
+Print Assumptions C11_gen_slice_pair.
+
+(* slice weight assembly: RombergGridSlice.get_final_weights (with the inherited get_support_points_with_their_weights and the
+   no-op subtract_constants of that class; coefficient factory of version ROMBERG_DEFAULT) and
+   TrapezoidalGridSlice.get_final_weights ARE the model's romberg_slice_final / trapezoid_slice_final; the Python returns a
+   defaultdict(list) keyed by grid points, fdict_of groups the model's contribution list in the same way (insertion order) *)
+Theorem C11_gen_romberg_slice_final : forall s,
+  RombergGridSlice_get_final_weights (sl_l s) (sl_r s) (sl_width s) (Z.of_nat (sl_max_level s)) (sl_supp s)
+    (mk_ExtrapolationCoefficientsFactory_t ExtrapolationVersion_ROMBERG_DEFAULT) = option_map fdict_of (romberg_slice_final s).
+Proof. exact gen_romberg_slice_final. Qed.
+Theorem C11_gen_trapezoid_slice_final : forall s,
+  TrapezoidalGridSlice_get_final_weights (sl_l s) (sl_r s) (sl_width s) = option_map fdict_of (trapezoid_slice_final s).
+Proof. exact gen_trapezoid_slice_final. Qed.
+Print Assumptions C11_gen_romberg_slice_final.
+Print Assumptions C11_gen_trapezoid_slice_final.
+
+(* support sequences: ExtrapolationGrid.compute_support_sequence with its recursion __compute_support_sequence_rec (self.grid,
+   self.grid_levels as parameters; indices and levels are natural numbers in the hand-written model).  The generated recursion is
+   fuelled; with ANY fuel above stop - start it computes the model's recursion - in particular the fuel S (len(grid_levels))
+   that the generated wrapper passes suffices (out of fuel = None never happens there).  Preconditions of the wrapper theorem:
+   len(grid) = len(grid_levels) (asserted by set_grid) and a non-empty grid (for an empty one the Python raises IndexError) *)
+Theorem C11_gen_support_sequence_rec_fuel_sufficient : forall lv fs fe fuel f start stop,
+  (stop - start < fuel)%nat -> (stop - start <= f)%nat ->
+  ExtrapolationGrid___compute_support_sequence_rec_rec fuel (map Z.of_nat lv) (Z.of_nat start) (Z.of_nat stop) (Z.of_nat fs) fe
+  = Some (map zpair (supp_rec f lv start stop fs)).
+Proof. exact gen_support_rec. Qed.
+Theorem C11_gen_compute_support_sequence : forall grid lv fs fe, length grid = length lv -> (1 <= length grid)%nat ->
+  ExtrapolationGrid_compute_support_sequence grid (map Z.of_nat lv) (Z.of_nat fs) fe = Some (support_sequence grid lv fs).
+Proof. exact gen_compute_support_sequence. Qed.
+Theorem C11_gen_grid_step_width : forall a b k, ExtrapolationGrid_get_step_width a b (Z.of_nat k) = Some (step_width a b k).
+Proof. exact gen_grid_step_width. Qed.
+Print Assumptions C11_gen_support_sequence_rec_fuel_sufficient.
+Print Assumptions C11_gen_compute_support_sequence.
+
+(* C11 for the generated definitions *)
+(* ... one extrapolated slice: whenever get_final_weights returns, the weights in its dictionary sum to the slice width and
+   reproduce int x (EVERY support sequence the code accepts, every max_level) *)
+Theorem C11_gen_romberg_slice_final_consistent : forall s d,
+  RombergGridSlice_get_final_weights (sl_l s) (sl_r s) (sl_width s) (Z.of_nat (sl_max_level s)) (sl_supp s)
+    (mk_ExtrapolationCoefficientsFactory_t ExtrapolationVersion_ROMBERG_DEFAULT) = Some d ->
+  fdict_wsum d = sl_width s /\ fdict_wmom d = half_sq (sl_l s) (sl_r s).
+Proof. exact gen_romberg_slice_final_consistent. Qed.
+Theorem C11_gen_trapezoid_slice_final_consistent : forall s d,
+  TrapezoidalGridSlice_get_final_weights (sl_l s) (sl_r s) (sl_width s) = Some d ->
+  fdict_wsum d = sl_width s /\ fdict_wmom d = half_sq (sl_l s) (sl_r s).
+Proof. exact gen_trapezoid_slice_final_consistent. Qed.
+Print Assumptions C11_gen_romberg_slice_final_consistent.
+Theorem C11_gen_slice_weights_consistent : forall l r L R wl wr,
+  RombergGridSlice_get_weight_for_left_and_right_support_point l r (r - l) L R = Some (wl, wr) ->
+  wl + wr = r - l /\ L * wl + R * wr = Qchalf * (r * r - l * l).
+Proof. exact gen_slice_pair_consistent. Qed.
+Theorem C11_gen_coefficients_sum_one : forall c a b m, a <> b -> (cls_lo c <= m)%nat ->
+  exists cs, py_mapM (fun j => ExtrapolationCoefficients_dyn_get_coefficient (mk_ExtrapolationCoefficients_t c a b) (Z.of_nat m) j)
+                     (py_range (Z.of_nat (S m))) = Some cs /\ sumQ cs = 1.
+Proof. exact gen_coefficients_sum_one. Qed.
+Theorem C11_gen_coefficients_interval_independent : forall c a b a' b' m j, a <> b -> a' <> b' ->
+  ExtrapolationCoefficients_dyn_get_coefficient (mk_ExtrapolationCoefficients_t c a b) (Z.of_nat m) (Z.of_nat j)
+  = ExtrapolationCoefficients_dyn_get_coefficient (mk_ExtrapolationCoefficients_t c a' b') (Z.of_nat m) (Z.of_nat j).
+Proof. exact gen_coefficients_interval_independent. Qed.
+Print Assumptions C11_gen_slice_weights_consistent.
+Print Assumptions C11_gen_coefficients_sum_one.
+
+(* non-vacuity: the generated functions compute the weights of the repo's own test (test_RombergWeightFactory-style values) *)
+Example C11_gen_nonvacuous_support :
+  option_map (map (fun p => (this (fst p), this (snd p))))
+    (ExtrapolationGrid_compute_support_sequence [0; q 1 2; q 5 8; q 3 4; 1] [0; 1; 3; 2; 0]%Z 1 2)
+  = Some [(0%Q, 1%Q); ((1 # 2)%Q, 1%Q); ((1 # 2)%Q, (3 # 4)%Q); ((1 # 2)%Q, (5 # 8)%Q)].
+Proof. vm_compute. reflexivity. Qed.
+Example C11_gen_nonvacuous :
+  (exists f, RombergWeightFactory_get 0 1 ExtrapolationVersion_ROMBERG_DEFAULT = Some f /\
+     option_map this (RombergTrapezoidalWeights_get_boundary_point_weight f 2%Z) = Some (7 # 90)%Q /\
+     option_map this (RombergTrapezoidalWeights_get_inner_point_weight f 1%Z 2%Z) = Some (2 # 15)%Q /\
+     option_map this (RombergTrapezoidalWeights_get_inner_point_weight f 2%Z 2%Z) = Some (16 # 45)%Q /\
+     RombergTrapezoidalWeights_get_inner_point_weight f 3%Z 2%Z = None) /\
+  (exists f, RombergWeightFactory_get 0 1 ExtrapolationVersion_ROMBERG_SIMPSON = Some f /\
+     option_map this (RombergSimpsonWeights_get_boundary_point_weight f 1%Z) = Some (1 # 6)%Q /\
+     option_map this (RombergSimpsonWeights_get_inner_point_weight f 1%Z 1%Z) = Some (2 # 3)%Q) /\
+  option_map (fun p => (this (fst p), this (snd p)))
+    (RombergGridSlice_get_weight_for_left_and_right_support_point (q 1 2) (q 5 8) (q 1 8) 0 1) = Some ((7 # 128)%Q, (9 # 128)%Q) /\
+  (* the slice [1/2, 5/8] of the grid of the repo's own test, levels (1,3), support sequence (0,1),(1/2,1),(1/2,3/4),(1/2,5/8) *)
+  option_map (map (fun kv => (this (fst kv), map this (snd kv))))
+    (RombergGridSlice_get_final_weights (q 1 2) (q 5 8) (q 1 8) 3 [(0, 1); (q 1 2, 1); (q 1 2, q 3 4); (q 1 2, q 5 8)]
+       (mk_ExtrapolationCoefficientsFactory_t ExtrapolationVersion_ROMBERG_DEFAULT))
+  = Some [(0%Q, [(-1 # 51840)%Q]); (1%Q, [(-1 # 40320)%Q; (1 # 2160)%Q]); ((1 # 2)%Q, [(7 # 2160)%Q; (-2 # 45)%Q; (256 # 2835)%Q]);
+          ((3 # 4)%Q, [(-2 # 135)%Q]); ((5 # 8)%Q, [(256 # 2835)%Q])].
+Proof.
+  split; [|split; [|split]].
+  - eexists. split; [reflexivity|]. repeat split; vm_compute; reflexivity.
+  - eexists. split; [reflexivity|]. repeat split; vm_compute; reflexivity.
+  - vm_compute. reflexivity.
+  - vm_compute. reflexivity.
+Qed.
